@@ -288,7 +288,33 @@ def aliased_atoms(prog):
     return False
 
 
+def body_disjunction(prog):
+    """Some rule has a disjunction in its body ('q :- (a ; b).'): the ground program has an unnamed or node, which
+    enum_clauses (shared with to_prolog) prints as 'None :- a.'."""
+    return any(s[0] == "rule_or" for s in prog)
+
+
+def det_clause_shares_body_with_prob_clause(prog):
+    """Some ground instance of a deterministic rule has exactly the body of a ground instance of a probabilistic
+    rule / AD with a body (e.g. '0.6::r :- q, s.  r :- q, s.'): enum_clauses then drops the deterministic clause."""
+    try:
+        ref = sem.evaluate(prog, max_choices=12, max_worlds=1 << 14, want_masks=True)
+    except Exception:
+        return False
+    prob_bodies = set()
+    for head, pos, neg, ch in ref.rules:
+        if ch is not None and (pos or neg):
+            prob_bodies.add((frozenset(pos), frozenset(neg)))
+    for head, pos, neg, ch in ref.rules:
+        if ch is None and (pos or neg) and (frozenset(pos), frozenset(neg)) in prob_bodies:
+            return True
+    return False
+
+
 KNOWN_CLASSES = {
+    "det_clause_shares_body_with_prob_clause": lambda case, failure: det_clause_shares_body_with_prob_clause(
+        case["prog"]),
+    "body_disjunction": lambda case, failure: body_disjunction(case["prog"]),
     "aliased_atoms": lambda case, failure: aliased_atoms(case["prog"]),
     "shared_var_call": lambda case, failure: gp.shared_var_call(case["prog"]),
     "bodyless_multihead_ad": lambda case, failure: bodyless_multihead_ad(case["prog"]),
@@ -296,6 +322,6 @@ KNOWN_CLASSES = {
 }
 
 SUBCHECKS = [
-    SubCheck("export", check, strategy=_strategy, budget={"quick": 600, "thorough": 10000},
+    SubCheck("export", check, strategy=_strategy, budget={"quick": 800, "thorough": 10000},
              timeout={"quick": 10, "thorough": 30}, render=render),
 ]
